@@ -195,3 +195,44 @@ def has_x3_trigger(schema, rw, tname, _seen=None):
 @predicate('X3')
 def _x3(prop, schema, rw, tname, val, bad):
     return has_x3_trigger(schema, rw, tname)
+
+
+# ---------------------------------------------------------------------------------------------- X8 / X9
+def struct_is_x8_shaped(rw, st):
+    """A part (block >= 1) is followed by a part of smaller alignment: the generated swap of the first aligns its
+    end pointer to its *own* alignment before the caller aligns to the next part's."""
+    fields = rw.wire_fields(st)
+    blocks = []
+    cur = None
+    for i, f in enumerate(fields):
+        if i == 0 or fields[i - 1].dynamic:
+            cur = [f.block_align, False]
+            blocks.append(cur)
+        cur[1] = f.dynamic
+    for i in range(1, len(blocks) - 1):
+        if blocks[i + 1][0] < blocks[i][0]:
+            return True
+    return False
+
+
+def reaches_x8(schema, rw, tname, _seen=None):
+    seen = _seen if _seen is not None else set()
+    t = schema.resolve(tname)
+    if isinstance(t, str) or isinstance(t, ir.Enum) or t.name in seen:
+        return False
+    seen.add(t.name)
+    if isinstance(t, ir.Union):
+        return any(reaches_x8(schema, rw, a.type, seen) for a in t.arms)
+    if struct_is_x8_shaped(rw, t):
+        return True
+    return any(reaches_x8(schema, rw, m.type, seen) for m in t.members if not m.is_bytes and m.type not in ir.NUMERIC)
+
+
+@predicate('X8')
+def _x8(prop, schema, rw, tname, val, bad):
+    return reaches_x8(schema, rw, tname)
+
+
+@predicate('X9')
+def _x9(prop, schema, rw, tname, val, bad):
+    return bool((bad[1] or {}).get('x9_signature'))
